@@ -99,12 +99,14 @@ CLAIMED = {
          "cosmetic attribute lists and the serialised attribute keys are re-read from the source on every run): for kinds "
          "without children reflexivity, antisymmetry, equal => same version and attributes, and composition of accepted "
          "upgrades (incl. regex-hard and enum extension); for properties and event types reflexivity, antisymmetry and "
-         "equal => same parts under well-formedness; the comparison covers every serialised attribute (reflection over the "
+         "equal => same parts under well-formedness, and composition of accepted upgrades (properties with their concept "
+         "associations unconditionally; event types under the premises that sub-elements carry the event type's version, as "
+         "in the code, and that a property's datetime flag follows its object type); the comparison covers every serialised attribute (reflection over the "
          "extracted lists); the pre-fix attachment rule is refuted. Tied to the code by comparing real element instances "
          "(__cmp__, ==, !=, <, >) for all ordered pairs of variants of an ontology (every single edit at 3 versions, compound "
          "edits) with the model, and by an oracle for reflexivity, antisymmetry, equal=>identical XML, composition on all "
          "triples, and purity.",
-    note=TB + "composition (transitivity) for properties and event types is checked by the oracle on triples, not proved; "
+    note=TB + "composition for whole ontologies is checked by the oracle on triples, not proved; "
          "validate() of operands is assumed to pass; restricted-attribute rules are hand-written (correspondence-checked); "
          "T1 translator harness/translate/c09.py.",
     technique="Coq proof over a generic comparison model with source-extracted rule tables + exhaustive pair correspondence", ref='5 C09'),
@@ -147,24 +149,31 @@ CLAIMED = {
          "(source LF type LF strings joined by 0xFFFFFFFF), the joined strings are the sorted duplicate-free set of "
          "'property:value' strings of hashed properties only, invariance under property/object order, duplicates and non-hashed "
          "content, and correctness of the hashed-property memo over all operation sequences (refuted without the change "
-         "callback). The byte-layout literals are re-read from /repo's source on every run (Generated/C01_gen.v) and the theorems "
+         "callback); conversely the hash input determines source, type and the set of identity strings, and each identity string "
+         "its (property, object) pair: UTF-8 is injective and a prefix code on scalar values, LF and the separator 0xFFFFFFFF never "
+         "occur inside the parts, so events that differ in identity have different hash inputs. The byte-layout literals are re-read from /repo's source on every run (Generated/C01_gen.v) and the theorems "
          "are re-checked against them; the real hash input is captured through the public hash_function argument for EDXMLEvent, "
          "EventElement and ParsedEvent and compared with the model; an independent Python statement of the spec is the oracle.",
-    note=TB + "hashlib/codecs are trusted; 'the hash changes when identity changes' holds up to hash collisions and is checked "
-         "on generated populations, not proved; T1 translator harness/translate/c01.py.",
+    note=TB + "hashlib/codecs are trusted; 'the hash changes when identity changes' is proved for the hash INPUT (premises: strings "
+         "are Unicode scalar values, source URI / type name without LF, property names without colon) and holds for the hash itself up "
+         "to collisions of the hash function; T1 translator harness/translate/c01.py.",
     technique="Coq proof over Gallina model with constants regenerated from source (ast) + correspondence on captured hash inputs", ref='5 C01'),
  'C03': dict(
     text="Theorems: history independence of the validator with schema cache for every history of ontology changes and "
          "validations (under C12's counter premise; refuted without it), the interleave matcher of <properties> accepts exactly "
-         "by counting (order irrelevant, only declared names, occurrence bounds), exact membership for enum/boolean. Value "
+         "by counting (order irrelevant, only declared names, occurrence bounds), exact membership for enum/boolean; for the ten integer data types the schema "
+         "accepts, for EVERY string, exactly the canonical ASCII decimal numerals whose value lies in the type range and facets "
+         "(theorems on the regular-expression matcher; each run checks by a proved-sound comparison that the schemas translated from "
+         "the running code ARE the schemas of these theorems). Value "
          "spaces: on every run the RelaxNG generated by the running code for a catalogue of data types is translated "
          "(every pattern parsed) into terms of a Gallina model of the libxml2 RelaxNG/XSD subset, which is evaluated with "
          "vm_compute and compared with the real verdicts; an independent statement of each value space fixes the expected "
          "verdict of a directed boundary catalogue; verdicts of EventValidator on EDXMLEvent/EventElement/ParsedEvent, "
          "EDXMLEvent.is_valid, EDXMLWriter.add_event and EDXMLPullParser must agree; structural single-fault mutations and "
          "validate/mutate histories with plain and parsed events.",
-    note=TB + "no theorem relates the generated patterns to the value spaces for all strings (that equivalence is checked on the "
-         "directed catalogue only); float/double/decimal/dateTime/base64Binary lexical spaces are outside the Gallina model "
+    note=TB + "outside the integer types no theorem relates the generated patterns to the value spaces for all strings (that "
+         "equivalence is checked on the directed catalogue only); the integer theorems assume of the Unicode table that ASCII digits "
+         "are Nd and white space is not; float/double/decimal/dateTime/base64Binary lexical spaces are outside the Gallina model "
          "(oracle only); Unicode classes are tabulated by the harness; one open known finding (decimal integer digits).",
     technique="Coq proofs (cache history, interleave = counting) + schema translation validation against libxml2 + value-space oracle", ref='5 C03'),
  'C04': dict(
@@ -182,11 +191,15 @@ CLAIMED = {
     text="Theorems: permutation invariance per order-free strategy (add, match under shared hash, min/max under an injective "
          "ordering - refuted without it -, replace under an event version without conflict), duplication law, and the batching "
          "law for EVERY partition of a group into consecutive blocks (merge of partial merges = merge of all), parents "
-         "included. Tied to the code by running all permutations (<=120), all consecutive partitions and the one-at-a-time fold "
+         "included; and for the executable models of the two stream mergers of edxml-merge: for EVERY buffer size and stream the "
+         "logical events of the output of the buffering merger, and the final buffer of the unbuffered merger, are the logical "
+         "events of the input (premises: no version property, no replace strategy, at most one object for min/max "
+         "properties). Tied to the code by running all permutations (<=120), all consecutive partitions and the one-at-a-time fold "
          "of generated groups through merge_events, and the two stream merger classes of edxml-merge with every buffer size "
          "1..n+1 against executable Gallina stream models.",
-    note=TB + "the step from the batching theorem to the stream mergers (per hash a merger splits the group into consecutive "
-         "blocks) is argued in DESIGN.md and checked by correspondence of the executable stream models, not proved; ranks "
+    note=TB + "the stream-merger theorems are about the executable stream models, which are tied to the two merger classes by "
+         "correspondence for every buffer size 1..n+1; event types with a version property (replace) are covered for the mergers by "
+         "correspondence only; ranks "
          "tabulated by the harness; only properties with order-free strategies are compared.",
     technique="Coq proof (permutation/duplication/batching laws) + exhaustive small-scope correspondence on the implementation", ref='5 C05'),
  'C15': dict(
@@ -252,11 +265,13 @@ CLAIMED = {
  'C18': dict(
     text="Theorems over the collection-equivalence model: the verdict is true exactly when ontologies are equal and both "
          "collections have the same hashes with equal merged events (spec), symmetry, reflexivity, equivalence with the "
-         "collision-resolved form, never raises on collisions; refutations for the pre-fix code. Tied to "
+         "collision-resolved form, never raises on collisions, invariance of the verdict under every reordering of the events of "
+         "either collection (premise: merging the instances of a logical event is order free - proved sufficient: no version "
+         "property, add / min,max with a separating ordering / other strategies with agreeing instances; refuted without); refutations for the pre-fix code. Tied to "
          "EventCollection.is_equivalent_of in both argument orders on generated collections and all single-difference mutants, "
          "with the expected verdict computed independently from the generator's logical events.",
-    note=TB + "invariance under reordering of events/objects is checked by the oracle on the implementation (permuted mutants), not "
-         "proved; sticky hashes are abstract keys; event types restricted to order-free strategies; instances of one logical event "
+    note=TB + "invariance under reordering of the OBJECTS inside an event is checked by the oracle on the implementation, not "
+         "proved (the model holds objects as sets); sticky hashes are abstract keys; event types restricted to order-free strategies; instances of one logical event "
          "share attachment ids.",
     technique="Coq proof over Gallina model of is_equivalent_of + model/implementation correspondence (vm_compute)", ref='5 C18'),
  'C19': dict(
